@@ -5,7 +5,7 @@ from ..impl import nap, iset_ns
 
 RULE = ("~90 NumPy call forms (unary / binary ufuncs with scalars and broadcastable raw arrays, python operators, reductions over axis "
         "None / 0 / 1 / 2 / -1 with and without keepdims, cumulative, rounding, reshaping, indexing helpers, linear algebra with raw arrays, "
-        "the same functions as methods through __getattr__) x Tsd / TsdFrame / TsdTensor x shapes incl. length 1, 2 and SQUARE shapes "
+        "the same functions as methods through __getattr__, and ~30 method calls x.f(args) compared with np.f(x, args) incl. the split family and the refused sorts) x Tsd / TsdFrame / TsdTensor x shapes incl. length 1, 2 and SQUARE shapes "
         "(a non-time axis as long as time): np.asarray(f(x)) == f(x.values) exactly (NaN-aware); if f(x) is a time series it has x's "
         "timestamps, support and - when the column count is unchanged - labels; element-wise results are always time series; the wrapper's "
         "decision (raw / class / labels) == Lean model wrapOut on (n, input shape, output shape); two series operands are refused; "
@@ -151,6 +151,43 @@ def numpy_forms(ctx):
                 ctx.fail("corr", "wrapper decision != model wrapOut", dict(inp, out_shape=outshape), impl=kind, model=o)
 
 
+def _canon_result(r):
+    """a result (object, raw array, list of either) in comparable form"""
+    if isinstance(r, (list, tuple)):
+        return ("seq",) + tuple(_canon_result(v) for v in r)
+    if isinstance(r, (nap.Tsd, nap.TsdFrame, nap.TsdTensor)):
+        return (type(r).__name__, tuple(ns_arr(r.index.values)), np.asarray(r.values).shape, np.asarray(r.values, dtype=float).tobytes(),
+                tuple(map(tuple, iset_ns(r.time_support))), tuple(map(str, r.columns)) if isinstance(r, nap.TsdFrame) else ())
+    a = np.asarray(r)
+    return ("raw", a.shape, np.asarray(a, dtype=float).tobytes() if a.dtype.kind in "fiub" else repr(a.tolist()))
+
+
+def method_forms(ctx):
+    """x.f(*args) is np.f(x, *args): whatever the function form does - a time series with its share of the timestamps, a raw
+    array, a refusal - the method form does too (C14: 'directly, as an operator, or as a method')"""
+    calls = [("split", (1,)), ("array_split", (2,)), ("array_split", (3,)), ("vsplit", (1,)), ("hsplit", (1,)), ("dsplit", (1,)),
+             ("sort", ()), ("argsort", ()), ("partition", (0,)), ("argpartition", (0,)), ("cumsum", (0,)), ("cumprod", (0,)),
+             ("mean", (0,)), ("sum", (-1,)), ("max", ()), ("squeeze", ()), ("ravel", ()), ("swapaxes", (0, -1)), ("diff", ()),
+             ("clip", (-1, 5)), ("round", (1,)), ("take", ([0],)), ("repeat", (2, 0)), ("flip", (0,)), ("roll", (1, 0)), ("nan_to_num", ()),
+             ("concatenate", ()), ("expand_dims", (1,)), ("transpose", ()), ("percentile", (50,)), ("count_nonzero", ())]
+    for cls, x in objects(ctx.rng):
+        for name, args in calls:
+            inp = dict(level="method-form", func=name, args=repr(args), cls=cls, shape=list(np.shape(x.values)))
+            ctx.case(("m", name, repr(args), cls, tuple(np.shape(x.values))))
+            out = []
+            for form in ("function", "method"):
+                with np.errstate(all="ignore"):
+                    try:
+                        r = getattr(np, name)(x, *args) if form == "function" else getattr(x, name)(*args)
+                        out.append(("ok", _canon_result(r)))
+                    except Exception as e:
+                        out.append(("raised", type(e).__name__))
+            ctx.count("method-form:" + ("both_raised" if out[0][0] == out[1][0] == "raised" else "compared"))
+            if out[0][0] != out[1][0] or (out[0][0] == "ok" and out[0][1] != out[1][1]):
+                ctx.fail("oracle", "x.%s%s differs from np.%s(x, ...)" % (name, args, name), inp,
+                         impl=[out[1][0], repr(out[1][1])[:300]], expected=[out[0][0], repr(out[0][1])[:300]])
+
+
 def two_operands(ctx):
     t = np.arange(4.0)
     a, b = nap.Tsd(t, np.arange(4.0)), nap.Tsd(t, np.ones(4))
@@ -256,6 +293,7 @@ def concat_split(ctx, n_cases):
 
 def run(ctx):
     numpy_forms(ctx)
+    method_forms(ctx)
     two_operands(ctx)
     concat_split(ctx, 150 if ctx.quick else 2000)
 
